@@ -35,8 +35,10 @@ DEFECT = {1: "A1/A2 (panic)", 2: "A1", 3: "A1", 5: "A2", 7: "A1"}
 
 def sizes(tier):
     if tier == "quick":
-        return dict(n=260, bursts=70, ticks=3, maxlen=12)
-    return dict(n=5000, bursts=1200, ticks=24, maxlen=12)
+        return [dict(n=300, bursts=120, ticks=3, maxlen=12, base=0)]
+    # thorough: more of the same, plus a batch of long histories (up to 24 calls before quiescing)
+    return [dict(n=10000, bursts=3000, ticks=30, maxlen=12, base=0),
+            dict(n=2000, bursts=0, ticks=0, maxlen=24, base=100000)]
 
 
 def evaluate(ctx, cases, tag=""):
@@ -79,9 +81,15 @@ def run(ctx):
             json.dump(rp["input"], f)
         cases = ctx.harness("c12", ["-spec", spec, "-reps", "5"], timeout=600)
     else:
-        z = sizes(ctx.tier)
-        cases = ctx.harness("c12", ["-n", str(z["n"]), "-bursts", str(z["bursts"]), "-ticks", str(z["ticks"]),
-                                    "-maxlen", str(z["maxlen"])], timeout=3000)
+        cases = []
+        for k, z in enumerate(sizes(ctx.tier)):
+            part = ctx.harness("c12", ["-n", str(z["n"]), "-bursts", str(z["bursts"]), "-ticks", str(z["ticks"]),
+                                       "-maxlen", str(z["maxlen"]), "-base", str(z["base"])],
+                               out_name="cases_%d.jsonl" % k, timeout=3000)
+            if part is None:
+                cases = None
+                break
+            cases += part
     if cases is None:
         ctx.evidence(dict(evaluations=0, distinct_nontrivial=0, rule="harness did not run", samples=[]))
         return
